@@ -357,9 +357,17 @@ def solver_reuse_stage(self, key):
         r, maxit, nconv = rng.randint(1, 4), rng.choice([1, 3, 11, 21]), rng.choice([1, 2, 10])
         a = random_run(rng, variants=[(directed, assort, init)], ltwt=("u", "u"), r=r, maxit=maxit, nconv=nconv, heavy=False)
         b = random_run(rng, variants=[(directed, assort, init)], ltwt=("u", "u"), r=r, maxit=maxit, nconv=nconv, heavy=False)
-        if rng.random() < 0.5:
+        t = rng.random()
+        if t < 0.35:
             # make the first problem the "easier" one (tiny network: higher likelihoods than the second)
             a.recs, a.L = [(0, 1, [1] * a.L)], a.L
+        elif t < 0.75:
+            # the first problem is a rewiring of the second: same vertices, layers, number of edges, other neighbours
+            labs = gen.first_appearance(b.recs)
+            perm = labs[1:] + labs[:1]
+            mp = dict(zip(labs, perm))
+            a.K, a.L, a.aff = b.K, b.L, list(b.aff)
+            a.recs = [(s, mp[d], ws) for s, d, ws in b.recs]
         two["s%d" % k] = (a, b)
         lines2.append(gen.case_run2("s%d.two" % k, directed, assort, init, r, maxit, nconv,
                                     [(a.K, a.recs, a.L, a.seed, a.aff), (b.K, b.recs, b.L, b.seed, b.aff)]))
@@ -447,6 +455,7 @@ class C07(Check):
                 d = dict(rc.__dict__)
                 d["prior"] = priors[pi]
                 d["vshape"] = pi   # the caller's in-membership container also arrives in 5 different shapes
+                d["lprior"] = pi % 4   # and the label container empty, partly right, too long, stale
                 lines.append(RunCase(**d).line("h%d.p%d" % (k, pi)))
                 if rng.random() < 0.5:  # an unrelated call in between
                     lines.append(random_run(rng, variants=ALL_VARIANTS).line("h%d.x%d" % (k, pi)))
@@ -830,6 +839,8 @@ class C12(Check):
                 d2 = dict(rc.__dict__)
                 d2["lt"] = lt
                 d2["recs"] = [(mp[s], mp[d], ws) for s, d, ws in rc.recs]
+                # the caller's label container is not always empty: reused from an earlier run, partly right, too long
+                d2["lprior"] = (mi + len(rc.recs)) % 4
                 lines.append(RunCase(**d2).line("%s.%d" % (cid, mi + 1)))
         io, mo = self.correspond("run", lines, drift=True)
         for cid, (rc, maps) in trip.items():
